@@ -610,8 +610,10 @@ impl<'r> Gen<'r> {
                 // simple defs
                 let f = self.fresh("f");
                 let cap = self.any_var();
-                let variant = self.rng.below(6);
-                let pure = (1..=4).contains(&variant);
+                let variant = self.rng.below(10);
+                let pure = (1..=4).contains(&variant) || variant == 7 || variant == 8;
+                let lv = self.of_kind(Kind::List);
+                let lit = self.list_lit();
                 let body = match variant {
                     0 => format!("def {f}(a, b = []):\n    b.append(a)\n    return len(b)"),
                     1 => match cap {
@@ -623,6 +625,15 @@ impl<'r> Gen<'r> {
                     4 => format!(
                         "def {f}(x):\n    acc = {{}}\n    for i in range(4):\n        if i == x:\n            continue\n        acc[i] = [i] * i\n    return acc"
                     ),
+                    // Keyword-only parameters (after `*` / `*args`) with heap-allocated defaults;
+                    // a default may be the very object a module variable holds.
+                    6 => format!("def {f}(x, *, k = {lit}):\n    k.append(x)\n    return k"),
+                    7 => format!("def {f}(x, *args, k = {{\"a\": {lit}}}, **kw):\n    return [x, args, k, kw]"),
+                    8 => match lv {
+                        Some(l) => format!("def {f}(x, *, k = {l}, j = ({l}, \"t\" * 3)):\n    return [x, k, j]"),
+                        None => format!("def {f}(x, *, k = ({lit}, \"s\" + str(1))):\n    return [x, k]"),
+                    },
+                    9 => format!("def {f}(x, y = {lit}, *rest, z = [{lit}]):\n    z.append(x)\n    return [y, rest, z]"),
                     _ => match cap {
                         Some(c) => format!("def {f}(x, d = {{\"k\": [{c}]}}):\n    d[\"k\"].append(x)\n    return d"),
                         None => format!("def {f}(x, d = {{\"k\": []}}):\n    d[\"k\"].append(x)\n    return d"),
